@@ -335,8 +335,9 @@ func genIdent(rt *rapid.T, viaMain bool) *IdentCase {
 	seen := map[string]bool{}
 	for i := 0; i < n; i++ {
 		o := genOrigin(rt, "origin")
-		if seen[o] {
-			o = o + strconv.Itoa(i)
+		for n := 0; seen[o]; n++ {
+			// construct a fresh origin rather than rejecting; make sure the constructed one is new too
+			o = o + "~" + strconv.Itoa(i+n)
 		}
 		seen[o] = true
 		c.Origins = append(c.Origins, o)
